@@ -342,6 +342,24 @@ def _corpus_families(big):
         inner2 = {"k": "cross", "design": [0, 1], "crossing": [0], "rcc": True, "cs": []}
         out.append({"factors": [c, t], "block": {"k": "repeat", "b": inner2,
                     "cs": [{"k": "MinimumTrials", "n": 6}, {"k": "AtMostKInARow", "n": k, "f": 1, "l": 0}]}})
+    out.mark()
+    # weighted crossed levels with an incomplete crossing (require_complete_crossing=False): the exclusion removes a
+    # combination that contains the weighted level, the weighted level itself, or acts through a derived level
+    for ws in ([2, 1], [3, 1, 1]):
+        wc = _sf(0, ["r", "b", "g"][:len(ws)], ws)
+        sz = _sf(1, ["big", "small"])
+        for cs in ([{"k": "Exclude", "f": 1, "l": 0}], [{"k": "Exclude", "f": 0, "l": 0}],
+                   [{"k": "Exclude", "f": 0, "l": 1}, {"k": "MinimumTrials", "n": 6}]):
+            out.append({"factors": [wc, sz], "block": {"k": "cross", "design": [0, 1], "crossing": [0, 1], "rcc": False, "cs": cs}})
+    wc2 = _sf(0, ["r", "b"], [2, 1])
+    sz2 = _sf(1, ["big", "small"])
+    loud_t = [0] * 9
+    loud_t[1 * 3 + 1] = 1          # (r, big)
+    loud = {"id": 2, "name": "f2", "window": {"deps": [0, 1], "width": 1, "stride": 1, "start": None, "kind": "within"},
+            "levels": [{"name": "yes", "w": 1, "table": loud_t}, {"name": "no", "w": 1, "table": [1 - x for x in loud_t]}]}
+    for extra in ([], [{"k": "MinimumTrials", "n": 6}]):
+        out.append({"factors": [wc2, sz2, loud], "block": {"k": "cross", "design": [0, 1, 2], "crossing": [0, 1], "rcc": False,
+                    "cs": [{"k": "Exclude", "f": 2, "l": 0}] + extra}})
     o, i1, i2 = _sf(0, ["o1", "o2"]), _sf(10, ["i1", "i2"]), _sf(11, ["u", "v"])
     for ics in ([], [{"k": "AtMostKInARow", "n": 1, "f": 11, "l": 0}], [{"k": "Pin", "idx": 0, "f": 11, "l": 1}]):
         for ocs in ([], [{"k": "Pin", "idx": -1, "f": 0, "l": 0}]):
